@@ -18,6 +18,8 @@ unpackings (`When(And(a, b))`, `And(And(a, b))`).
 -/
 import MysticVerif.Proofs.Termination
 import MysticVerif.Props.C10.Grad
+import MysticVerif.Props.C10.Collapse
+import MysticVerif.Props.C10.Keys
 import Mathlib.Tactic.Linarith
 import Mathlib.Algebra.Order.Ring.Abs
 import Mathlib.Algebra.Order.Field.Rat
